@@ -183,6 +183,24 @@ pub fn episode(sim: &Sim, cfg: &StreamCfg, tag: Tag, out: &mut Vec<Item>) -> Res
         sim.count("abandoned_giant_announcement");
         return Ok(());
     }
+    if cfg.kind.is_bytes() && cfg.fault_pct > 0 && sim.chance(2) {
+        // a burst of long link frames whose bodies contain zero bytes (each is a whole frame:
+        // delimiter, length, that many bytes) - a receiver must take each one as a unit
+        let n = 5 + sim.draw(36);
+        for _ in 0..n {
+            let l = 150 + sim.draw(106) as usize;
+            let mut body = rand_bytes(sim, l, false);
+            let z = sim.draw(l as u32) as usize;
+            body[z] = 0;
+            out.push(Item {
+                unit: Unit::Body(body),
+                tag,
+                what: "zero-body-burst",
+            });
+        }
+        sim.count("fault_burst_of_long_bodies_with_zeros");
+        return Ok(());
+    }
     if cfg.overlong_pct > 0 && sim.chance(cfg.overlong_pct) {
         overlong_episode(sim, cfg, tag, out);
         return Ok(());
@@ -578,6 +596,54 @@ pub fn load(sim: &Sim, wire: &WireRef, items: &[Item]) -> Loaded {
     l
 }
 
+thread_local! {
+    static READS_AHEAD: std::cell::RefCell<[Option<bool>; 3]> = std::cell::RefCell::new([None; 3]);
+}
+
+/// Calibration, once per worker and link kind: does this receiver implementation take
+/// input from the device beyond the frame it reports on (read-ahead into an internal
+/// buffer)? Two single-frame packets are queued and polled once. Device-level
+/// observations (how many units a poll took, which frame was taken last) are only used
+/// as oracle inputs for receivers that do not read ahead; for the others the checks fall
+/// back to their purely API-level formulations.
+pub fn reads_ahead(kind: LinkKind) -> bool {
+    let idx = match kind {
+        LinkKind::Usart => 0,
+        LinkKind::Can => 1,
+        LinkKind::Serial => 2,
+    };
+    if let Some(v) = READS_AHEAD.with(|c| c.borrow()[idx]) {
+        return v;
+    }
+    let sim = Sim::new(crate::tape::Tape::replay(Vec::new()), false);
+    let wire = Wire::new(kind);
+    let back = Wire::new(kind);
+    let p1 = Packet { is_error: false, device_address: 0x0011, data: vec![1, 2, 3] };
+    let p2 = Packet { is_error: false, device_address: 0x0022, data: vec![4, 5] };
+    let mut items = Vec::new();
+    let v = if clean_packet_items(kind, &p1, Tag::Prefix, &mut items).is_ok() {
+        load(&sim, &wire, &items);
+        let end1 = wire.borrow().len();
+        let mut more = Vec::new();
+        if clean_packet_items(kind, &p2, Tag::Prefix, &mut more).is_ok() {
+            load(&sim, &wire, &more);
+            match sut(|| AnyLink::new(kind, Dev::new(&sim, "cal", &wire, &back))) {
+                Ok(mut rx) => {
+                    let out = poll(&sim, "cal", &mut rx, &wire);
+                    matches!(out.res, Ok(Ok(_))) && out.cursor_after > end1
+                }
+                Err(_) => false,
+            }
+        } else {
+            false
+        }
+    } else {
+        false
+    };
+    READS_AHEAD.with(|c| c.borrow_mut()[idx] = Some(v));
+    v
+}
+
 fn new_receiver(sim: &Sim, kind: LinkKind, wire: &WireRef, back: &WireRef) -> AnyLink {
     // constructed in the SUT allocation domain: whatever a fresh receiver holds is "fresh"
     match sut(|| AnyLink::new(kind, Dev::new(sim, "rx", wire, back))) {
@@ -685,13 +751,26 @@ pub fn run_c06(sim: &Sim, prop: &str, tier: Tier) -> Outcome {
         sim.count("noise_after_last_frame");
     }
 
-    let loaded = load(sim, &wire, &items);
-    let n_frames = loaded.frame_tags.len();
+    // Two ways to tell which results belong to the probes:
+    //  * one phase: everything is on the wire from the start and a result is attributed to
+    //    the frame taken last from the device (only for receivers that do not read ahead);
+    //  * two phases: the prefix is supplied and drained to quiescence, then the probes are
+    //    supplied - every result of the second phase belongs to the probes (purely API-level).
+    let read_ahead = reads_ahead(kind);
+    let two_phase = read_ahead || sim.chance(25);
+    let n_prefix_items = items.iter().take_while(|i| i.tag == Tag::Prefix).count();
+    let mut frame_tags: Vec<Tag> = Vec::new();
+    let phases: Vec<&[Item]> = if two_phase {
+        vec![&items[..n_prefix_items], &items[n_prefix_items..]]
+    } else {
+        vec![&items[..]]
+    };
     sim.set_sample(|| {
         format!(
-            "link={} schedule_mode={} prefix=[{}] P1={} P2={}",
+            "link={} schedule_mode={} {} prefix=[{}] P1={} P2={}",
             kind.name(),
             mode,
+            if two_phase { "two-phase" } else { "one-phase" },
             items
                 .iter()
                 .filter(|i| i.tag == Tag::Prefix)
@@ -702,10 +781,6 @@ pub fn run_c06(sim: &Sim, prop: &str, tier: Tier) -> Outcome {
             show_packet(&p2)
         )
     });
-    // variant: the prefix is drained completely before the probes arrive
-    if sim.chance(25) && loaded.probe_start_unit != usize::MAX {
-        wire.borrow_mut().forced_wb = Some((loaded.probe_start_unit, 1 + sim.draw(3)));
-    }
     let restart_pct = sim.pick(&[0u32, 0, 10, 40]);
 
     let mut rx = new_receiver(sim, kind, &wire, &back);
@@ -713,108 +788,137 @@ pub fn run_c06(sim: &Sim, prop: &str, tier: Tier) -> Outcome {
 
     let mut probe_oks: Vec<Packet> = Vec::new();
     let mut p1_errors = 0u32;
-    let mut polls = 0usize;
-    let soft_budget = 4 * n_frames + 300;
-    let hard_budget = soft_budget + 2 * n_frames + 50;
-    loop {
-        // receiver restart at a frame boundary while the peer keeps transmitting
-        {
-            let (cur, at_b) = {
-                let w = wire.borrow();
-                (w.cursor, w.at_boundary())
-            };
-            if restart_pct > 0 && at_b && cur < loaded.probe_start_unit && cur > 0 && sim.chance(restart_pct) {
-                drop(rx);
-                rx = new_receiver(sim, kind, &wire, &back);
-                sim.count("receiver_restarted");
-                sim.event(crate::scenario::EV_APP, 1, cur as u64, || "receiver object recreated (restart)".to_string());
-            }
+    let mut n_frames = 0usize;
+    for (phase, phase_items) in phases.iter().enumerate() {
+        let probe_phase = two_phase && phase == 1;
+        let loaded = load(sim, &wire, phase_items);
+        frame_tags.extend(loaded.frame_tags.iter().copied());
+        n_frames = frame_tags.len();
+        // where the probes start on the wire (one-phase runs)
+        let probe_start_unit = if two_phase {
+            usize::MAX
+        } else {
+            loaded.probe_start_unit
+        };
+        if probe_phase {
+            sim.event(crate::scenario::EV_APP, 2, 0, || "prefix drained to quiescence; the two probe packets arrive now".to_string());
+            wire.borrow_mut().drain = false;
         }
-        let out = poll(sim, "rx", &mut rx, &wire);
-        polls += 1;
-        match &out.res {
-            Err(Crash::Blocked) => {
-                return fail(
-                    prop,
-                    "C06.noblock",
-                    format!(
-                        "poll never returns: the receiver keeps reading after the supplied frames are exhausted ({} on {}, {} of {} frames taken)",
-                        kind.name(),
-                        kind.name(),
-                        out.frames_after,
-                        n_frames
-                    ),
-                    sig("blocked"),
-                )
-            }
-            Err(Crash::Panic(m)) => {
-                let last = if out.frames_after > 0 { items_frame_what(&items, out.frames_after - 1) } else { "none" };
-                return fail(
-                    prop,
-                    "C06.total",
-                    format!("receiver panicked while polling (last frame taken: {}): {}", last, m),
-                    sig(&format!("panic:{}", panic_site(m))),
-                );
-            }
-            Ok(Err(InterfaceError::NoPacketReceived)) => {
-                if wire.borrow().in_flight() == 0 {
-                    break;
+        let mut polls = 0usize;
+        let phase_frames = loaded.frame_tags.len();
+        let soft_budget = 4 * phase_frames + 300;
+        let hard_budget = soft_budget + 2 * phase_frames + 50;
+        loop {
+            // receiver restart at a frame boundary while the peer keeps transmitting
+            if !probe_phase && !read_ahead {
+                let (cur, at_b) = {
+                    let w = wire.borrow();
+                    (w.cursor, w.at_boundary())
+                };
+                if restart_pct > 0 && at_b && cur < probe_start_unit && cur > 0 && sim.chance(restart_pct) {
+                    drop(rx);
+                    rx = new_receiver(sim, kind, &wire, &back);
+                    sim.count("receiver_restarted");
+                    sim.event(crate::scenario::EV_APP, 1, cur as u64, || "receiver object recreated (restart)".to_string());
                 }
-                if out.cursor_after == out.cursor_before && wire.borrow().drain {
+            }
+            let out = poll(sim, "rx", &mut rx, &wire);
+            polls += 1;
+            match &out.res {
+                Err(Crash::Blocked) => {
                     return fail(
                         prop,
                         "C06.noblock",
-                        "receiver reports 'nothing received' without taking available input: no progress".to_string(),
-                        sig("no-progress"),
-                    );
+                        format!(
+                            "poll never returns: the receiver keeps reading after the supplied frames are exhausted ({}, {} of {} frames taken)",
+                            kind.name(),
+                            out.frames_after,
+                            n_frames
+                        ),
+                        sig("blocked"),
+                    )
                 }
-            }
-            Ok(res) => {
-                if out.frames_after == 0 {
+                Err(Crash::Panic(m)) => {
+                    let last = if out.frames_after > 0 { items_frame_what(&items, out.frames_after - 1) } else { "none" };
                     return fail(
                         prop,
-                        "C06.extent",
-                        format!("a result was produced before any whole frame was taken: {:?}", res.as_ref().map(show_packet)),
-                        sig("result-without-frame"),
+                        "C06.total",
+                        format!("receiver panicked while polling (last frame taken: {}): {}", last, m),
+                        sig(&format!("panic:{}", panic_site(m))),
                     );
                 }
-                let idx = out.frames_after - 1;
-                let tag = loaded.frame_tags.get(idx).copied().unwrap_or(Tag::Prefix);
-                match (tag, res) {
-                    (Tag::Probe(_), Ok(p)) => probe_oks.push(p.clone()),
-                    (Tag::Probe(1), Err(_)) => p1_errors += 1,
-                    (Tag::Prefix, Ok(_)) => sim.count("prefix_packet_delivered"),
-                    (Tag::Prefix, Err(InterfaceError::BuilderError(_))) => sim.probe("prefix_builder_error"),
-                    (Tag::Prefix, Err(InterfaceError::FrameError(_))) => sim.probe("prefix_frame_error"),
-                    _ => {}
+                Ok(Err(InterfaceError::NoPacketReceived)) => {
+                    if wire.borrow().in_flight() == 0 {
+                        break;
+                    }
+                    if out.cursor_after == out.cursor_before && wire.borrow().drain {
+                        return fail(
+                            prop,
+                            "C06.noblock",
+                            "receiver reports 'nothing received' without taking available input: no progress".to_string(),
+                            sig("no-progress"),
+                        );
+                    }
+                }
+                Ok(res) => {
+                    if out.frames_after == 0 && !read_ahead {
+                        return fail(
+                            prop,
+                            "C06.extent",
+                            format!("a result was produced before any whole frame was taken: {:?}", res.as_ref().map(show_packet)),
+                            sig("result-without-frame"),
+                        );
+                    }
+                    let tag = if two_phase {
+                        if probe_phase {
+                            Tag::Probe(0)
+                        } else {
+                            Tag::Prefix
+                        }
+                    } else {
+                        frame_tags.get(out.frames_after.saturating_sub(1)).copied().unwrap_or(Tag::Prefix)
+                    };
+                    match (tag, res) {
+                        (Tag::Probe(_), Ok(p)) => probe_oks.push(p.clone()),
+                        // one-phase: an error on a frame of the first probe; two-phase: any error
+                        // reported while the probes are processed
+                        (Tag::Probe(1), Err(_)) | (Tag::Probe(0), Err(_)) => p1_errors += 1,
+                        (Tag::Prefix, Ok(_)) => sim.count("prefix_packet_delivered"),
+                        (Tag::Prefix, Err(InterfaceError::BuilderError(_))) => sim.probe("prefix_builder_error"),
+                        (Tag::Prefix, Err(InterfaceError::FrameError(_))) => sim.probe("prefix_frame_error"),
+                        _ => {}
+                    }
                 }
             }
+            {
+                let w = wire.borrow();
+                let st = (bucket(w.frames_taken.min(n_frames)) << 8)
+                    | (bucket(w.in_flight()) << 4)
+                    | match &out.res {
+                        Ok(Ok(_)) => 1,
+                        Ok(Err(InterfaceError::NoPacketReceived)) => 0,
+                        Ok(Err(InterfaceError::BuilderError(_))) => 2,
+                        Ok(Err(InterfaceError::FrameError(_))) => 3,
+                        _ => 4,
+                    };
+                drop(w);
+                sim.abstract_state(st);
+            }
+            if polls > soft_budget {
+                wire.borrow_mut().drain = true;
+            }
+            if polls > hard_budget {
+                return fail(
+                    prop,
+                    "C06.noblock",
+                    format!("{} polls did not drain {} frames", polls, phase_frames),
+                    sig("no-progress"),
+                );
+            }
         }
-        {
-            let w = wire.borrow();
-            let st = (bucket(w.frames_taken.min(n_frames)) << 8)
-                | (bucket(w.in_flight()) << 4)
-                | match &out.res {
-                    Ok(Ok(_)) => 1,
-                    Ok(Err(InterfaceError::NoPacketReceived)) => 0,
-                    Ok(Err(InterfaceError::BuilderError(_))) => 2,
-                    Ok(Err(InterfaceError::FrameError(_))) => 3,
-                    _ => 4,
-                };
-            drop(w);
-            sim.abstract_state(st);
-        }
-        if polls > soft_budget {
-            wire.borrow_mut().drain = true;
-        }
-        if polls > hard_budget {
-            return fail(
-                prop,
-                "C06.noblock",
-                format!("{} polls did not drain {} frames", polls, n_frames),
-                sig("no-progress"),
-            );
-        }
+    }
+    if two_phase {
+        sim.count("two_phase_runs");
     }
 
     // ---- the probe clause
@@ -843,7 +947,7 @@ pub fn run_c06(sim: &Sim, prop: &str, tier: Tier) -> Outcome {
             prop,
             "C06.probe",
             format!(
-                "after the prefix, probes P1={} P2={} arrived back-to-back; polls attributed to probe frames returned Ok[{}] and {} error(s) on P1 frames ({})",
+                "after the prefix, probes P1={} P2={} arrived back-to-back; the polls that processed them returned Ok[{}] and {} error(s) for the first probe ({})",
                 show_packet(&p1),
                 show_packet(&p2),
                 probe_oks.iter().map(show_packet).collect::<Vec<_>>().join(", "),
@@ -937,6 +1041,7 @@ pub fn run_c19(sim: &Sim, prop: &str, tier: Tier) -> Outcome {
     let fresh = alloc::sut_live() - base;
     let sig = |what: &str| format!("{}:{}", kind.name(), what);
 
+    let read_ahead = reads_ahead(kind);
     let mut announced: u32 = 0; // A: largest announcement taken since the last boundary
     let mut polls = 0usize;
     let soft_budget = 4 * n_frames + 300;
@@ -1031,7 +1136,11 @@ pub fn run_c19(sim: &Sim, prop: &str, tier: Tier) -> Outcome {
                 if announced > 1 {
                     sim.probe("boundary_after_multi_frame");
                 }
-                announced = 0;
+                // (a receiver that reads ahead may already have taken the next packet's start
+                // frame from the device: the bound must stay an upper bound)
+                if !read_ahead {
+                    announced = 0;
+                }
                 accepted_since_boundary = 0;
             }
             _ => {
@@ -1055,7 +1164,7 @@ pub fn run_c19(sim: &Sim, prop: &str, tier: Tier) -> Outcome {
                 }
                 // (the memory condition keeps a receiver that silently skips frames out of this
                 // clause: 4096 frames need at least 18 B each in the tightest representation)
-                if accepted_since_boundary > 4096 && live - fresh > 18 * 4096 + 1024 {
+                if !read_ahead && accepted_since_boundary > 4096 && live - fresh > 18 * 4096 + 1024 {
                     return fail(
                         prop,
                         "C19.cap",
